@@ -29,12 +29,18 @@ import (
 )
 
 type c18CmAddr struct {
-	idx int
-	ok  bool
+	idx  int
+	ok   bool
+	text string // when set: the address text handed to the connection manager (wired stream)
 }
 
 func (a *c18CmAddr) Network() string { return "tcp" }
-func (a *c18CmAddr) String() string  { return fmt.Sprintf("10.7.%d.1:8333", a.idx) }
+func (a *c18CmAddr) String() string {
+	if a.text != "" {
+		return a.text
+	}
+	return fmt.Sprintf("10.7.%d.1:8333", a.idx)
+}
 
 type c18CmConn struct {
 	rig    *c18CmRig
@@ -83,6 +89,7 @@ type c18CmRig struct {
 	ban  bool
 	quit chan struct{}
 
+	addrText []string // optional: address index -> "host:port" text
 	lockstep bool
 	waiting  []*c18CmGate // requests blocked in GetNewAddress, arrival order
 	arrivals int
@@ -138,7 +145,11 @@ func c18NewCmRig(target int, ban bool, lockstep bool, retry time.Duration) (*c18
 					if resp.addrErr {
 						return nil, errors.New("no valid connect address")
 					}
-					return &c18CmAddr{idx: resp.addr, ok: resp.ok}, nil
+					a := &c18CmAddr{idx: resp.addr, ok: resp.ok}
+					if resp.addr < len(r.addrText) {
+						a.text = r.addrText[resp.addr]
+					}
+					return a, nil
 				case <-r.quit:
 					return nil, errors.New("rig stopped")
 				}
@@ -194,7 +205,13 @@ func c18NewCmRig(target int, ban bool, lockstep bool, retry time.Duration) (*c18
 	if ban {
 		cfg.BanAddress = func(s string) {
 			r.mu.Lock()
-			r.banned = append(r.banned, c18AddrIdx(s))
+			idx := c18AddrIdx(s)
+			for i, t := range r.addrText {
+				if t == s {
+					idx = i
+				}
+			}
+			r.banned = append(r.banned, idx)
 			r.cond.Broadcast()
 			r.mu.Unlock()
 		}
